@@ -186,3 +186,57 @@ def limited(seconds, fn):
     finally:
         signal.setitimer(signal.ITIMER_VIRTUAL, 0)
         signal.signal(signal.SIGVTALRM, old)
+
+
+# ---- constructor variants for the generic defences (G2 input isolation, G4 dtypes) --------------------------------
+CTORS = ["buffer", "view", "fortran", "list", "tuple", "float", "int32", "fresh",
+         "diagram_list", "diagram_tuple", "diagram_gen", "diagram_zip", "diagram_iter"]
+
+
+def construct(mem, rank, work, keep):
+    from geometry_tools import coxeter
+    M, c = mem["M"], mem["ctor"]
+    nm = "abcdefgh"[:rank]
+    mnames = ["abcdefgh"[i] if mem["style"] == "alpha" else "s%d" % i for i in range(rank)]
+    pairs = [(i, j) for i in range(rank) for j in range(i + 1, rank)]
+    if c == "buffer":
+        work[...] = np.array(M)
+        return coxeter.CoxeterGroup(matrix=work, generator_style=mem["style"]), mnames
+    if c == "view":
+        big = np.full((rank + 2, rank + 3), 9, dtype=int)
+        big[1:rank + 1, 2:rank + 2] = np.array(M)
+        keep.append(big)
+        return coxeter.CoxeterGroup(matrix=big[1:rank + 1, 2:rank + 2], generator_style=mem["style"]), mnames
+    if c == "fortran":
+        A = np.asfortranarray(np.array(M))
+        keep.append(A)
+        return coxeter.CoxeterGroup(matrix=A.T, generator_style=mem["style"]), mnames
+    if c == "list":
+        L = [row[:] for row in M]
+        keep.append(L)
+        return coxeter.CoxeterGroup(matrix=L, generator_style=mem["style"]), mnames
+    if c == "tuple":
+        return coxeter.CoxeterGroup(matrix=tuple(tuple(r) for r in M), generator_style=mem["style"]), mnames
+    if c == "float":
+        A = np.array(M, dtype=float)
+        keep.append(A)
+        return coxeter.CoxeterGroup(matrix=A, generator_style=mem["style"]), mnames
+    if c == "int32":
+        A = np.array(M, dtype=np.int32)
+        keep.append(A)
+        return coxeter.CoxeterGroup(matrix=A, generator_style=mem["style"]), mnames
+    if c == "fresh":
+        return coxeter.CoxeterGroup(matrix=np.array(M), generator_style=mem["style"]), mnames
+    edges = [[nm[i], nm[j], M[i][j]] for i, j in pairs]
+    if c == "diagram_list":
+        keep.append(edges)
+        return coxeter.CoxeterGroup(diagram=edges), list(nm)
+    if c == "diagram_tuple":
+        return coxeter.CoxeterGroup(diagram=tuple(tuple(e) for e in edges)), list(nm)
+    if c == "diagram_gen":
+        return coxeter.CoxeterGroup(diagram=((a, b, o) for a, b, o in edges)), list(nm)
+    if c == "diagram_zip":
+        return coxeter.CoxeterGroup(diagram=zip([e[0] for e in edges], [e[1] for e in edges], [e[2] for e in edges])), list(nm)
+    return coxeter.CoxeterGroup(diagram=iter(edges)), list(nm)
+
+
